@@ -157,8 +157,10 @@ def rand_preferred(rng, aliases, names):
                 seen.add(e)
                 chosen.append(p)
         return chosen
-    if r < 0.9:
+    if r < 0.86:
         return rng.sample(pool, min(len(pool), rng.randint(2, 4)))          # possibly ambiguous
+    if r < 0.92:
+        return rng.sample(pool, min(len(pool), 1)) + [rng.choice(['nosuch', 'Q'])]   # a preferred name that is neither alias nor variable
     p = rng.choice(pool)
     return [p, p]                                                           # a duplicate
 
@@ -585,7 +587,7 @@ def _k_compare(case, m, o):
         return 'constructor: model=%s impl=%s' % (m['init'], o['init'])
     if m['init'] != 'ok':
         return None
-    if m.get('aliases') != o.get('aliases'):
+    if dict(map(tuple, m.get('aliases') or [])) != dict(map(tuple, o.get('aliases') or [])):     # the map, not its key order
         return 'self.aliases: model=%s impl=%s' % (m.get('aliases'), o.get('aliases'))
     d = cc.diff_state(m['st0'], o['st0'])
     if d:
@@ -825,7 +827,7 @@ def _oracle(case, obs):
                 bad('contains|alias-differs-from-variable', 'op %d: %r in obj gave %s, but %r in obj gives %s and item access through both names is the same' % (
                     i, op[1][1], a, chain_end(al, op[1][1]), t), touch=names_of_op(op))
     # ---- no additional storage
-    if obs.get('dict_extra_arrays') or obs.get('dict_missing') or len(obs.get('dict_extra', [])) > 4:
+    if obs.get('dict_extra_arrays') or obs.get('dict_missing'):
         # the mixin's own bookkeeping (the alias map, the preferred names) is no series; anything array-like is storage
         bad('storage|extra-entries', 'the aliased object holds %s more (arrays: %s) / %s fewer entries than its twin' % (
             obs.get('dict_extra'), obs.get('dict_extra_arrays'), obs.get('dict_missing')), touch='walk')
